@@ -130,7 +130,7 @@ def judge(ctx, cases, impl):
 
 def run(ctx):
     g = G(ctx.seed)
-    cases = gen(g, 60 if ctx.tier == 'quick' else 1200)
+    cases = gen(g, 250 if ctx.tier == 'quick' else 1200)
     impl, model = run_apps(ctx, cases)
     judge(ctx, cases, impl)
     for c in cases:
